@@ -386,7 +386,7 @@ def render(cfg: dict, layer: Layer, view: View, parent_entries: list[tuple[str, 
                 s1 = (a + spb512 - c * ratio * spb512) // sec
                 if cfg["alloc_seed"] & 1:
                     bm[s0 >> 3 : s1 >> 3] = b"\xff" * ((s1 >> 3) - (s0 >> 3))
-        f.write(posn[("sb", c)], bytes(bm))
+        f.write_blob(posn[("sb", c)], bytes(bm))  # a bit array, not a structure with fields
     f.set_length(max(f.length, cur, data_base))
     img.files[name] = f
     img.main = name
